@@ -596,6 +596,9 @@ class PythonPrimitiveToStoneDecoder:
                     getattr(data_type.definition, all_extra_field_names, {}))
 
             for key in obj:
+                if not isinstance(key, str):
+                    raise bv.ValidationError(
+                        'expected string key, got %s' % bv.generic_type_name(key))
                 if (key not in all_field_names and
                         not key.startswith('.tag')):
                     raise bv.ValidationError("unknown field '%s'" % key)
@@ -797,6 +800,9 @@ class PythonPrimitiveToStoneDecoder:
         Searches through the JSON-object-compatible dict using the data type
         definition to determine which of the enumerated subtypes `obj` is.
         """
+        if not isinstance(obj, dict):
+            raise bv.ValidationError('expected object, got %s' %
+                                     bv.generic_type_name(obj))
         if '.tag' not in obj:
             raise bv.ValidationError("missing '.tag' key")
         if not isinstance(obj['.tag'], str):
@@ -884,7 +890,8 @@ class PythonPrimitiveToStoneDecoder:
             else:
                 try:
                     ret = base64.b64decode(val)
-                except (TypeError, binascii.Error):
+                except (TypeError, ValueError):
+                    # binascii.Error is a ValueError; non-ASCII text raises ValueError
                     raise bv.ValidationError('invalid base64-encoded bytes')
         elif isinstance(data_type, bv.Void):
             if self.strict and val is not None:
